@@ -194,6 +194,8 @@ func init() {
 			c := args[0].(*sym.Term)
 			if !c.IsFalse() {
 				in.assume(c)
+			} else {
+				in.pathViolations++ // reported when this prefix was first explored
 			}
 			return nil
 		}
